@@ -5,6 +5,10 @@ use tsmodel::{parse, Decl, Env, Ty};
 
 use crate::{Args, Log, TypeEntry};
 
+pub mod fsutil;
+pub mod history;
+pub mod merge;
+pub mod paths;
 pub mod sem;
 
 pub fn dispatch(args: &Args, reg: &[TypeEntry], log: &mut Log) {
@@ -12,6 +16,10 @@ pub fn dispatch(args: &Args, reg: &[TypeEntry], log: &mut Log) {
         "selftest" => selftest(log),
         "C01" => sem::c01(args, reg, log),
         "C02" => sem::c02(args, reg, log),
+        "C05" => merge::c05(args, reg, log),
+        "C06" => history::c06(args, reg, log),
+        "C08" => paths::c08(args, log),
+        "C17" => history::c17(args, reg, log),
         "dump" => dump(reg, log),
         other => panic!("unknown monitor {other}"),
     }
